@@ -1,6 +1,6 @@
 (* The life cycle of an experiment object (Model/Lifecycle.v): set-up overwrites every per-run
    field, so the state at simulationStarted does not depend on the history; the prototype
-   network is never written; the generator's quota. *)
+   network is never written; the generator's quota; the protocol of one run. *)
 From Coq Require Import List ZArith QArith Bool Arith String Lia.
 From EpyV Require Import Model.Kernel Model.Lifecycle.
 Import ListNotations.
@@ -29,74 +29,15 @@ Definition Inv (g0 : G) (s : state) : Prop :=
 Definition can_generate (s : state) : bool :=
   match s_remaining s with Some O => false | _ => true end.
 
-Lemma Inv_log g0 t (s : state) : Inv g0 s -> Inv g0 (log t s).
-Proof. exact (fun H => H). Qed.
-Lemma Inv_set_status g0 b (s : state) : Inv g0 s -> Inv g0 (set_status b s).
-Proof. exact (fun H => H). Qed.
-Lemma Inv_set_k g0 k (s : state) : Inv g0 s -> Inv g0 (set_k k s).
-Proof. exact (fun H => H). Qed.
-Lemma Inv_prologue g0 (s : state) : Inv g0 s -> Inv g0 (prologue s).
-Proof. exact (fun H => H). Qed.
-
-(* user code reaches only the working network *)
-Lemma Inv_act g0 (f : st W * G -> st W * G) (s : state) : Inv g0 s -> Inv g0 (act f s).
-Proof.
-  intros (H1 & H2 & H3). unfold act. destruct (s_graph s) as [a|] eqn:Eg; [|repeat split; try assumption; rewrite Eg; exact I].
-  destruct (h_get a (s_heap s)) as [g|]; [|repeat split; try assumption; rewrite Eg; exact H3].
-  destruct (f (s_k s, g)) as [k g']. unfold Inv. simpl. rewrite Eg. destruct H3 as [Hne Hlt].
-  rewrite h_get_set. destruct (Nat.eqb_spec (s_proto s) a) as [E|_]; [congruence|]. repeat split; assumption.
-Qed.
-
-Lemma act_fields (f : st W * G -> st W * G) (s : state) :
-  s_proto (act f s) = s_proto s /\ s_remaining (act f s) = s_remaining s /\ s_generated (act f s) = s_generated s
-  /\ s_runid (act f s) = s_runid s /\ s_trace (act f s) = s_trace s /\ s_graph (act f s) = s_graph s.
-Proof.
-  unfold act. destruct (s_graph s) as [a|] eqn:Eg; [|repeat split; try reflexivity; exact Eg].
-  destruct (h_get a (s_heap s)) as [g|]; [|repeat split; try reflexivity; exact Eg].
-  destruct (f (s_k s, g)) as [k g']. repeat split; try reflexivity. exact Eg.
-Qed.
-
-(* ------------------------------------------------------------------ set-up *)
-Lemma Inv_net_setup g0 params inj s : Inv g0 s -> Inv g0 (fst (net_setup params inj s)).
-Proof.
-  intros (H1 & H2 & H3). unfold net_setup.
-  assert (Hgo : forall rem,
-    Inv g0 (fst (match inj with
-                 | Some FGenerate =>
-                     (upd G W P s (s_heap s) rem (s_generated s) (s_runid s) (TSetUp :: s_trace s) None (Some params) (s_topology s)
-                          (s_k s) (s_table s) (s_status s) (s_results s), true)
-                 | _ =>
-                     match h_get (s_proto s) (s_heap s) with
-                     | None => (upd G W P s (s_heap s) (s_remaining s) (s_generated s) (s_runid s) (TSetUp :: s_trace s) None
-                                    (Some params) (s_topology s) (s_k s) (s_table s) (s_status s) (s_results s), true)
-                     | Some g =>
-                         let '(a, h) := h_alloc g (s_heap s) in
-                         (upd G W P s h rem (S (s_generated s)) (s_runid s) (TGenerate true :: TSetUp :: s_trace s) (Some a)
-                              (Some params) true (s_k s) (s_table s) (s_status s) (s_results s), false)
-                     end
-                 end))).
-  { intro rem.
-    assert (Hgen : Inv g0 (fst (match h_get (s_proto s) (s_heap s) with
-                     | None => (upd G W P s (s_heap s) (s_remaining s) (s_generated s) (s_runid s) (TSetUp :: s_trace s) None
-                                    (Some params) (s_topology s) (s_k s) (s_table s) (s_status s) (s_results s), true)
-                     | Some g =>
-                         let '(a, h) := h_alloc g (s_heap s) in
-                         (upd G W P s h rem (S (s_generated s)) (s_runid s) (TGenerate true :: TSetUp :: s_trace s) (Some a)
-                              (Some params) true (s_k s) (s_table s) (s_status s) (s_results s), false)
-                     end))).
-    { rewrite H1. unfold Inv. simpl. unfold h_get. simpl.
-      destruct (Nat.eqb_spec (s_proto s) (h_next (s_heap s))) as [E|_]; [lia|].
-      split; [exact H1|]. split; [lia|]. split; lia. }
-    destruct inj as [[| | | | | |]|]; try exact Hgen.
-    unfold Inv. simpl. repeat split; assumption. }
-  simpl. destruct (s_remaining s) as [[|n]|]; [|apply Hgo|apply Hgo].
-  unfold Inv. simpl. repeat split; assumption.
-Qed.
-
+(* a step that touches neither the heap nor the two references *)
 Lemma Inv_eq g0 (s s' : state) :
   s_proto s' = s_proto s -> s_heap s' = s_heap s -> s_graph s' = s_graph s -> Inv g0 s -> Inv g0 s'.
 Proof. unfold Inv. intros -> -> ->. tauto. Qed.
-
+(* a step that drops the working network *)
+Lemma Inv_drop g0 (s s' : state) :
+  s_proto s' = s_proto s -> s_heap s' = s_heap s -> s_graph s' = None -> Inv g0 s -> Inv g0 s'.
+Proof. unfold Inv. intros -> -> ->. tauto. Qed.
+(* a step that writes the working network *)
 Lemma Inv_hset g0 (s s' : state) a g' :
   s_graph s = Some a -> s_proto s' = s_proto s -> s_heap s' = h_set a g' (s_heap s) -> s_graph s' = s_graph s ->
   Inv g0 s -> Inv g0 s'.
@@ -104,48 +45,123 @@ Proof.
   unfold Inv. intros Eg -> -> ->. rewrite Eg. intros (H1 & H2 & Hne & Hlt). rewrite h_get_set.
   destruct (Nat.eqb_spec (s_proto s) a) as [E|_]; [congruence|]. repeat split; assumption.
 Qed.
+(* the step that allocates the copy *)
+Lemma Inv_put g0 g (s : state) : Inv g0 s -> Inv g0 (put_graph g s).
+Proof.
+  intros (H1 & H2 & _). unfold Inv. cbn. unfold h_get. cbn.
+  destruct (Nat.eqb_spec (s_proto s) (h_next (s_heap s))) as [E|_]; [lia|].
+  split; [exact H1|]. split; [lia|]. split; lia.
+Qed.
+
+(* user code reaches only the working network *)
+Lemma Inv_act g0 (f : st W * G -> st W * G) (s : state) : Inv g0 s -> Inv g0 (act f s).
+Proof.
+  intro HI. unfold act. destruct (s_graph s) as [a|] eqn:Eg; [|exact HI].
+  destruct (h_get a (s_heap s)) as [g|]; [|exact HI].
+  apply (Inv_hset g0 s _ a (snd (f (s_k s, g))) Eg); try reflexivity. exact HI.
+Qed.
+
+Lemma act_fields (f : st W * G -> st W * G) (s : state) :
+  s_proto (act f s) = s_proto s /\ s_remaining (act f s) = s_remaining s /\ s_generated (act f s) = s_generated s
+  /\ s_runid (act f s) = s_runid s /\ s_trace (act f s) = s_trace s /\ s_graph (act f s) = s_graph s
+  /\ s_status (act f s) = s_status s.
+Proof.
+  unfold act. destruct (s_graph s) as [a|] eqn:Eg; [|repeat split; try reflexivity; exact Eg].
+  destruct (h_get a (s_heap s)) as [g|]; [|repeat split; try reflexivity; exact Eg].
+  repeat split; try reflexivity. exact Eg.
+Qed.
+
+(* ------------------------------------------------------------------ case analysis of set-up *)
+Inductive net_case (params : P) (inj : option fail) (s : state) : state * bool -> Prop :=
+| NC_exhausted : s_remaining s = Some O -> net_case params inj s (no_graph (drop_graph params s), false)
+| NC_generator_raised : s_remaining s <> Some O -> inj = Some FGenerate ->
+    net_case params inj s (take_quota (drop_graph params s), true)
+| NC_no_prototype : s_remaining s <> Some O -> inj <> Some FGenerate -> h_get (s_proto s) (s_heap s) = None ->
+    net_case params inj s (drop_graph params s, true)
+| NC_generated g : s_remaining s <> Some O -> inj <> Some FGenerate -> h_get (s_proto s) (s_heap s) = Some g ->
+    net_case params inj s (put_graph g (take_quota (drop_graph params s)), false).
+
+Lemma net_setup_case params inj s : net_case params inj s (net_setup params inj s).
+Proof.
+  unfold net_setup. destruct (s_remaining s) as [[|n]|] eqn:Er; [apply NC_exhausted; exact Er| |].
+  all: destruct inj as [[| | | | | |]|].
+  all: try (apply NC_generator_raised; congruence).
+  all: destruct (h_get (s_proto s) (s_heap s)) as [g|] eqn:Eg;
+       [apply NC_generated; congruence|apply NC_no_prototype; congruence].
+Qed.
+
+Inductive dyn_case (i : nat) (params : P) (inj : option fail) (s : state) : state * bool -> Prop :=
+| DC_reset : inj = Some FReset -> dyn_case i params inj s (log TReset (clear_stream u i s), true)
+| DC_build : inj = Some FBuild ->
+    dyn_case i params inj s (act (u_partial u FBuild params) (log TBuild (reset_proc u i (clear_stream u i s))), true)
+| DC_no_network : inj <> Some FReset -> inj <> Some FBuild ->
+    (s_graph s = None \/ exists a, s_graph s = Some a /\ h_get a (s_heap s) = None) ->
+    dyn_case i params inj s (log TBuild (reset_proc u i (clear_stream u i s)), true)
+| DC_proc_setup a g : inj = Some FProcSetUp -> s_graph s = Some a -> h_get a (s_heap s) = Some g ->
+    dyn_case i params inj s
+      (act (u_partial u FProcSetUp params)
+           (log TProcSetUp (built u i (u_table u params g) (reset_proc u i (clear_stream u i s)))), true)
+| DC_ok a g : inj <> Some FReset -> inj <> Some FBuild -> inj <> Some FProcSetUp ->
+    s_graph s = Some a -> h_get a (s_heap s) = Some g ->
+    dyn_case i params inj s
+      (proc_setup u i a (u_decorate u params g) (u_table u params g)
+                  (built u i (u_table u params g) (reset_proc u i (clear_stream u i s))), false).
+
+Lemma dyn_setup_case i params inj s : dyn_case i params inj s (dyn_setup u i params inj s).
+Proof.
+  unfold dyn_setup.
+  destruct inj as [[| | | | | |]|]; try (apply DC_reset; reflexivity); try (apply DC_build; reflexivity).
+  all: destruct (s_graph s) as [a|] eqn:Eg; [|apply DC_no_network; [congruence|congruence|left; exact Eg]].
+  all: destruct (h_get a (s_heap s)) as [g|] eqn:Ea;
+       [|apply DC_no_network; [congruence|congruence|right; exists a; split; [exact Eg|exact Ea]]].
+  all: try (apply (DC_ok i params _ s a g); try congruence; assumption).
+  apply (DC_proc_setup i params _ s a g); [reflexivity|exact Eg|exact Ea].
+Qed.
+
+(* ------------------------------------------------------------------ the invariant *)
+Lemma Inv_net_setup g0 params inj s : Inv g0 s -> Inv g0 (fst (net_setup params inj s)).
+Proof.
+  intro HI. destruct (net_setup_case params inj s); cbn [fst].
+  - apply (Inv_drop g0 s); try reflexivity. exact HI.
+  - apply (Inv_drop g0 s); try reflexivity. exact HI.
+  - apply (Inv_drop g0 s); try reflexivity. exact HI.
+  - apply Inv_put. apply (Inv_drop g0 s); try reflexivity. exact HI.
+Qed.
 
 Lemma Inv_dyn_setup g0 i params inj s : Inv g0 s -> Inv g0 (fst (dyn_setup u i params inj s)).
 Proof.
-  intros HI.
-  assert (Hdefault : forall inj', (match inj' with Some FReset | Some FBuild | Some FProcSetUp => False | _ => True end) ->
-    Inv g0 (fst (dyn_setup u i params inj' s))).
-  { intros inj' Hinj. unfold dyn_setup.
-    destruct inj' as [[| | | | | |]|]; try contradiction; clear Hinj; cbn.
-    all: destruct (s_graph s) as [a|] eqn:Eg; [|apply (Inv_eq g0 s); [reflexivity|reflexivity|cbn; rewrite Eg; reflexivity|exact HI]].
-    all: destruct (h_get a (s_heap s)) as [g|] eqn:Ea; [|apply (Inv_eq g0 s); [reflexivity|reflexivity|cbn; rewrite Eg; reflexivity|exact HI]].
-    all: destruct (u_oracle u i) as [[rs ls] ds]; cbn.
-    all: apply (Inv_hset g0 s _ a (u_decorate u params g) Eg); [reflexivity|reflexivity|cbn; rewrite Eg; reflexivity|exact HI]. }
-  destruct inj as [[| | | | | |]|]; try (apply Hdefault; exact I).
-  - (* FReset *) exact HI.
-  - (* FBuild *) unfold dyn_setup. cbn -[act]. apply Inv_act. exact HI.
-  - (* FProcSetUp *) unfold dyn_setup. cbn -[act].
-    destruct (s_graph s) as [a|] eqn:Eg; [|apply (Inv_eq g0 s); [reflexivity|reflexivity|cbn; rewrite Eg; reflexivity|exact HI]].
-    destruct (h_get a (s_heap s)) as [g|] eqn:Ea; [|apply (Inv_eq g0 s); [reflexivity|reflexivity|cbn; rewrite Eg; reflexivity|exact HI]].
-    destruct (u_oracle u i) as [[rs ls] ds]. cbn -[act]. apply Inv_act.
-    apply (Inv_eq g0 s); [reflexivity|reflexivity|cbn; rewrite Eg; reflexivity|exact HI].
+  intro HI. destruct (dyn_setup_case i params inj s); cbn [fst].
+  - apply (Inv_eq g0 s); try reflexivity. exact HI.
+  - apply Inv_act. apply (Inv_eq g0 s); try reflexivity. exact HI.
+  - apply (Inv_eq g0 s); try reflexivity. exact HI.
+  - apply Inv_act. apply (Inv_eq g0 s); try reflexivity. exact HI.
+  - apply (Inv_hset g0 s _ a (u_decorate u params g)); try reflexivity; assumption.
 Qed.
 
 Lemma Inv_setup g0 i params inj s : Inv g0 s -> Inv g0 (fst (setup u i params inj s)).
 Proof.
   intro HI. unfold setup.
-  pose proof (Inv_net_setup g0 params inj (prologue s) (Inv_prologue g0 s HI)) as H1.
-  destruct (net_setup params inj (prologue s)) as [s1 [|]]; [exact H1|].
-  apply Inv_dyn_setup. exact H1.
+  assert (H1 : Inv g0 (fst (net_setup params inj (prologue s)))).
+  { apply Inv_net_setup. apply (Inv_eq g0 s); try reflexivity. exact HI. }
+  destruct (snd (net_setup params inj (prologue s))); [exact H1|]. apply Inv_dyn_setup. exact H1.
 Qed.
 
-Lemma Inv_teardown g0 inj (s : state) : Inv g0 s -> Inv g0 (fst (teardown inj s)).
-Proof. intro HI. unfold teardown. destruct inj as [[| | | | | |]|]; exact HI. Qed.
+Lemma Inv_after_started g0 params o (s : state) : Inv g0 s -> Inv g0 (fst (after_started u params o s)).
+Proof.
+  intro HI. unfold after_started.
+  assert (H3 : Inv g0 (act (u_body u o params) (log TStarted s))).
+  { apply Inv_act. apply (Inv_eq g0 s); try reflexivity. exact HI. }
+  set (s3 := act (u_body u o params) (log TStarted s)) in *. clearbody s3.
+  destruct o as [|[| | | |k| |]]; cbn [fst]; apply (Inv_eq g0 s3); try reflexivity; exact H3.
+Qed.
 
 Lemma Inv_run_once g0 i params o s : Inv g0 s -> Inv g0 (fst (run_once u i params o s)).
 Proof.
   intro HI. unfold run_once.
   pose proof (Inv_setup g0 i params (match o with Ok => None | FailAt f => Some f end) s HI) as H1.
-  destruct (setup u i params _ s) as [s1 [|]]; [exact H1|].
-  assert (H3 : Inv g0 (act (u_body u o params) (log TStarted s1))) by (apply Inv_act; exact H1).
-  destruct o as [|[| | | |k| |]]; cbn -[act].
-  all: try (apply Inv_set_status; exact H3).
-  all: exact H3.
+  destruct (snd (setup u i params _ s)); cbn [fst].
+  - apply (Inv_eq g0 (fst (setup u i params (match o with Ok => None | FailAt f => Some f end) s))); try reflexivity. exact H1.
+  - apply Inv_after_started. exact H1.
 Qed.
 
 Lemma Inv_run_all g0 h : forall i s, Inv g0 s -> Inv g0 (run_all u i h s).
@@ -156,24 +172,29 @@ Qed.
 Lemma Inv_initial g0 limit : Inv g0 (initial u g0 limit).
 Proof. unfold Inv, initial. simpl. repeat split. lia. Qed.
 
+(* ------------------------------------------------------------------ fields that a run preserves *)
 Lemma setup_proto i params inj (s : state) : s_proto (fst (setup u i params inj s)) = s_proto s.
 Proof.
-  unfold setup, net_setup, dyn_setup.
-  destruct (s_remaining (prologue s)) as [[|n]|]; destruct inj as [[| | | | | |]|]; cbn -[act];
-  repeat match goal with
-         | |- context [h_get ?a ?h] => destruct (h_get a h); cbn -[act]
-         | |- context [match s_graph ?x with _ => _ end] => destruct (s_graph x); cbn -[act]
-         | |- context [u_oracle u i] => destruct (u_oracle u i) as [[? ?] ?]; cbn -[act]
-         | |- context [act ?f ?x] => rewrite (proj1 (act_fields f x)); cbn -[act]
-         end; reflexivity.
+  unfold setup.
+  assert (H1 : s_proto (fst (net_setup params inj (prologue s))) = s_proto s)
+    by (destruct (net_setup_case params inj (prologue s)); reflexivity).
+  destruct (snd (net_setup params inj (prologue s))); [exact H1|].
+  rewrite <- H1. generalize (fst (net_setup params inj (prologue s))). intro s1.
+  destruct (dyn_setup_case i params inj s1); cbn [fst]; rewrite ?(proj1 (act_fields _ _)); reflexivity.
+Qed.
+
+Lemma after_started_proto params o (s : state) : s_proto (fst (after_started u params o s)) = s_proto s.
+Proof.
+  unfold after_started.
+  assert (H3 : s_proto (act (u_body u o params) (log TStarted s)) = s_proto s) by (rewrite (proj1 (act_fields _ _)); reflexivity).
+  set (s3 := act (u_body u o params) (log TStarted s)) in *. clearbody s3.
+  destruct o as [|[| | | |k| |]]; cbn [fst]; exact H3.
 Qed.
 
 Lemma run_once_proto i params o (s : state) : s_proto (fst (run_once u i params o s)) = s_proto s.
 Proof.
-  unfold run_once. set (inj := match o with Ok => None | FailAt f => Some f end).
-  pose proof (setup_proto i params inj s) as Hs.
-  destruct (setup u i params inj s) as [s1 [|]]; [exact Hs|]. simpl in Hs.
-  destruct inj as [[| | | |k| |]|]; cbn -[act]; rewrite ?(proj1 (act_fields _ _)); exact Hs.
+  unfold run_once. pose proof (setup_proto i params (match o with Ok => None | FailAt f => Some f end) s) as Hs.
+  destruct (snd (setup u i params _ s)); cbn [fst]; [exact Hs|]. rewrite after_started_proto. exact Hs.
 Qed.
 
 Lemma run_all_proto h : forall i (s : state), s_proto (run_all u i h s) = s_proto s.
@@ -196,11 +217,19 @@ Qed.
 Lemma setup_fresh g0 i params s : Inv g0 s -> can_generate s = true ->
   snd (setup u i params None s) = false /\ view_of (fst (setup u i params None s)) = F u i params g0.
 Proof.
-  intros (H1 & H2 & H3) Hq. unfold setup, net_setup, dyn_setup, F, can_generate in *. cbn.
-  destruct (s_remaining s) as [[|n]|]; [discriminate| |].
-  all: cbn; rewrite H1; cbn; unfold h_get at 1; cbn; rewrite Nat.eqb_refl; cbn.
-  all: destruct (u_oracle u i) as [[rs ls] ds]; cbn.
-  all: split; [reflexivity|]; unfold view_of; cbn; unfold h_get; cbn; rewrite Nat.eqb_refl; reflexivity.
+  intros (H1 & H2 & H3) Hq. unfold setup.
+  destruct (net_setup_case params None (prologue s)) as [Hr|Hr Hi|Hr Hi Hp|g Hr Hi Hp]; cbn [fst snd].
+  - exfalso. unfold can_generate in Hq. change (s_remaining (prologue s)) with (s_remaining s) in Hr. rewrite Hr in Hq. discriminate.
+  - discriminate.
+  - exfalso. change (h_get (s_proto s) (s_heap s) = None) in Hp. congruence.
+  - change (h_get (s_proto s) (s_heap s) = Some g) in Hp. assert (g = g0) by congruence. subst g.
+    set (s1 := put_graph g0 (take_quota (drop_graph params (prologue s)))).
+    assert (Eg : s_graph s1 = Some (h_next (s_heap s))) by reflexivity.
+    assert (Ea : h_get (h_next (s_heap s)) (s_heap s1) = Some g0) by (unfold s1, h_get; cbn; rewrite Nat.eqb_refl; reflexivity).
+    destruct (dyn_setup_case i params None s1) as [Hj|Hj|_ _ Hn|a g Hj _ _|a g _ _ _ Ha Hg]; try discriminate; cbn [fst snd].
+    + exfalso. destruct Hn as [Hn|(a & Ha & Hn)]; [congruence|]. rewrite Eg in Ha. injection Ha as <-. congruence.
+    + rewrite Eg in Ha. injection Ha as <-. rewrite Ea in Hg. injection Hg as <-.
+      split; [reflexivity|]. unfold view_of, F. cbn. unfold h_get. cbn. rewrite Nat.eqb_refl. reflexivity.
 Qed.
 
 Lemma setup_exhausted i params s : s_remaining s = Some O ->
@@ -208,7 +237,15 @@ Lemma setup_exhausted i params s : s_remaining s = Some O ->
   /\ view_of (fst (setup u i params None s))
      = {| v_net := None; v_genparams := Some params; v_topology := true; v_k := fresh_k u (u_world u) i;
           v_table := None; v_status := None; v_results := false |}.
-Proof. intro Hr. unfold setup, net_setup, dyn_setup. cbn. rewrite Hr. cbn. split; reflexivity. Qed.
+Proof.
+  intro Hr. unfold setup.
+  destruct (net_setup_case params None (prologue s)) as [_|Hr'|Hr'|g Hr']; cbn [fst snd];
+    try (exfalso; apply Hr'; exact Hr).
+  set (s1 := no_graph (drop_graph params (prologue s))).
+  assert (Eg : s_graph s1 = None) by reflexivity.
+  destruct (dyn_setup_case i params None s1) as [Hj|Hj|_ _ Hn|a g Hj _ _|a g _ _ _ Ha Hg]; try discriminate; cbn [fst snd].
+  split; reflexivity.
+Qed.
 
 (* set-up reads no per-run field: from any two states of objects around the same prototype value
    and with the same quota status it leaves the same per-run state *)
@@ -233,37 +270,54 @@ Theorem history g0 limit h params :
   exists s1, at_started u (List.length h) params s = Some s1 /\ view_of s1 = F u (List.length h) params g0.
 Proof.
   cbv zeta. intro Hq. pose proof (Inv_run_all g0 h 0 _ (Inv_initial g0 limit)) as HI.
-  destruct (setup_fresh g0 (List.length h) params _ HI Hq) as [A B]. unfold at_started.
-  destruct (setup u (List.length h) params None _) as [s1 r]. simpl in A, B. subst r. exists s1. split; [reflexivity|exact B].
+  destruct (setup_fresh g0 (List.length h) params _ HI Hq) as [A B]. unfold at_started. rewrite A.
+  eexists. split; [reflexivity|exact B].
 Qed.
 
 (* ------------------------------------------------------------------ quota *)
 Definition quota_inv (L : nat) (s : state) : Prop :=
   exists r, s_remaining s = Some r /\ s_generated s + r <= L.
 
+Lemma quota_eq L (s s' : state) : s_remaining s' = s_remaining s -> s_generated s' = s_generated s -> quota_inv L s -> quota_inv L s'.
+Proof. unfold quota_inv. intros -> ->. tauto. Qed.
+
 Lemma setup_quota L i params inj s : quota_inv L s -> quota_inv L (fst (setup u i params inj s)).
 Proof.
-  intros (r & Hr & Hle). unfold quota_inv, setup, net_setup, dyn_setup. cbn. rewrite Hr.
-  destruct r as [|n]; destruct inj as [[| | | | | |]|]; cbn;
-  repeat match goal with
-         | |- context [h_get ?a ?h] => destruct (h_get a h); cbn
-         | |- context [s_graph ?x] => destruct (s_graph x); cbn
-         | |- context [u_oracle u i] => destruct (u_oracle u i) as [[? ?] ?]; cbn
-         | |- context [act ?f ?x] => rewrite (proj1 (proj2 (act_fields f x))), (proj1 (proj2 (proj2 (act_fields f x)))); cbn
-         end;
-  first [exists 0; split; [reflexivity|lia] | exists n; split; [reflexivity|lia] | exists (S n); split; [reflexivity|lia]].
+  intro HQ. unfold setup.
+  assert (H1 : quota_inv L (fst (net_setup params inj (prologue s)))).
+  { destruct HQ as (r & Hr & Hle).
+    destruct (net_setup_case params inj (prologue s)) as [_|Hr' _|Hr' _ _|g Hr' _ _]; cbn [fst].
+    - exists r. split; [exact Hr|exact Hle].
+    - change (s_remaining s <> Some O) in Hr'. unfold quota_inv. cbn. rewrite Hr.
+      destruct r as [|n]; [congruence|]. exists n. split; [reflexivity|lia].
+    - exists r. split; [exact Hr|exact Hle].
+    - change (s_remaining s <> Some O) in Hr'. unfold quota_inv. cbn. rewrite Hr.
+      destruct r as [|n]; [congruence|]. exists n. split; [reflexivity|lia]. }
+  destruct (snd (net_setup params inj (prologue s))); [exact H1|].
+  revert H1. generalize (fst (net_setup params inj (prologue s))). intros s1 H1.
+  destruct (dyn_setup_case i params inj s1); cbn [fst].
+  all: apply (quota_eq L s1); [| |exact H1];
+       rewrite ?(proj1 (proj2 (act_fields _ _))), ?(proj1 (proj2 (proj2 (act_fields _ _)))); reflexivity.
+Qed.
+
+Lemma after_started_quota L params o (s : state) : quota_inv L s -> quota_inv L (fst (after_started u params o s)).
+Proof.
+  intro HQ. unfold after_started.
+  assert (H3 : quota_inv L (act (u_body u o params) (log TStarted s))).
+  { apply (quota_eq L s); [| |exact HQ].
+    - rewrite (proj1 (proj2 (act_fields _ _))). reflexivity.
+    - rewrite (proj1 (proj2 (proj2 (act_fields _ _)))). reflexivity. }
+  set (s3 := act (u_body u o params) (log TStarted s)) in *. clearbody s3.
+  destruct o as [|[| | | |k| |]]; cbn [fst]; apply (quota_eq L s3); try reflexivity; exact H3.
 Qed.
 
 Lemma run_once_quota L i params o s : quota_inv L s -> quota_inv L (fst (run_once u i params o s)).
 Proof.
-  intro HQ. unfold run_once. set (inj := match o with Ok => None | FailAt f => Some f end).
-  pose proof (setup_quota L i params inj s HQ) as H1.
-  destruct (setup u i params inj s) as [s1 [|]]; [exact H1|]. simpl in H1.
-  destruct H1 as (r & Hr & Hle).
-  assert (Ha : forall f, s_remaining (act f (log TStarted s1)) = Some r /\ s_generated (act f (log TStarted s1)) + r <= L).
-  { intro f. destruct (act_fields f (log TStarted s1)) as (_ & A & B & _). rewrite A, B. split; assumption. }
-  destruct (Ha (u_body u o params)) as [A B].
-  destruct inj as [[| | | |k| |]|]; cbn -[act]; exists r; split; assumption.
+  intro HQ. unfold run_once.
+  pose proof (setup_quota L i params (match o with Ok => None | FailAt f => Some f end) s HQ) as H1.
+  destruct (snd (setup u i params _ s)); cbn [fst].
+  - apply (quota_eq L (fst (setup u i params (match o with Ok => None | FailAt f => Some f end) s))); try reflexivity. exact H1.
+  - apply after_started_quota. exact H1.
 Qed.
 
 Theorem quota L h : forall i s, quota_inv L s -> quota_inv L (run_all u i h s).
@@ -277,12 +331,30 @@ Proof.
   destruct (quota L h 0 _ HQ) as (r & _ & Hle). lia.
 Qed.
 
+Lemma run_all_unbounded h : forall i (s : state), s_remaining s = None -> s_remaining (run_all u i h s) = None.
+Proof.
+  induction h as [|[params o] h IH]; intros i s Hs; simpl; [exact Hs|]. apply IH.
+  unfold run_once. set (inj := match o with Ok => None | FailAt f => Some f end).
+  assert (H1 : s_remaining (fst (setup u i params inj s)) = None).
+  { unfold setup.
+    assert (H0 : s_remaining (fst (net_setup params inj (prologue s))) = None).
+    { destruct (net_setup_case params inj (prologue s)); cbn; rewrite ?Hs; reflexivity. }
+    destruct (snd (net_setup params inj (prologue s))); [exact H0|].
+    revert H0. generalize (fst (net_setup params inj (prologue s))). intros s1 H0.
+    destruct (dyn_setup_case i params inj s1); cbn [fst]; rewrite ?(proj1 (proj2 (act_fields _ _))); exact H0. }
+  destruct (snd (setup u i params inj s)); cbn [fst]; [exact H1|].
+  unfold after_started.
+  assert (H3 : s_remaining (act (u_body u o params) (log TStarted (fst (setup u i params inj s)))) = None)
+    by (rewrite (proj1 (proj2 (act_fields _ _))); exact H1).
+  set (s3 := act (u_body u o params) (log TStarted (fst (setup u i params inj s)))) in *. clearbody s3.
+  destruct o as [|[| | | |k| |]]; cbn [fst]; exact H3.
+Qed.
+
 (* ------------------------------------------------------------------ the protocol of one run *)
 (* the calls that one run adds to the trace, oldest first *)
-Definition calls_of (s s' : state) : list tag -> Prop := fun l => s_trace s' = rev l ++ s_trace s.
+Definition calls_of (s s' : state) (l : list tag) : Prop := s_trace s' = rev l ++ s_trace s.
 
-Theorem protocol g0 i params o s : Inv g0 s -> can_generate s = true ->
-  let '(s', failed) := run_once u i params o s in
+Definition protocol_spec (o : outcome) (s s' : state) (failed : bool) : Prop :=
   match o with
   | Ok => failed = false /\ s_status s' = Some true /\ queue (s_k s') = []
           /\ calls_of s s' [TSetUp; TGenerate true; TReset; TBuild; TProcSetUp; TStarted; TResults; TEnded; TProcTearDown; TTornDown]
@@ -298,21 +370,38 @@ Theorem protocol g0 i params o s : Inv g0 s -> can_generate s = true ->
   | FailAt FProcTearDown => failed = true /\ s_status s' = Some false
                             /\ calls_of s s' [TSetUp; TGenerate true; TReset; TBuild; TProcSetUp; TStarted; TResults; TEnded; TProcTearDown]
   end.
+
+Theorem protocol g0 i params o s : Inv g0 s -> can_generate s = true ->
+  protocol_spec o s (fst (run_once u i params o s)) (snd (run_once u i params o s)).
 Proof.
-  intros (H1 & H2 & H3) Hq. unfold can_generate in Hq.
-  unfold run_once, setup, net_setup, dyn_setup, calls_of.
-  destruct (s_remaining s) as [[|n]|] eqn:Er; [discriminate| |].
-  all: destruct o as [|[| | | |k| |]]; cbn -[act]; rewrite ?Er; cbn -[act]; rewrite ?H1; cbn -[act];
-       unfold h_get at 1; cbn -[act]; rewrite ?Nat.eqb_refl; cbn -[act];
-       try (destruct (u_oracle u i) as [[rs ls] ds]; cbn -[act]).
-  all: repeat match goal with
-              | |- context [act ?f ?x] =>
-                  let Hf := fresh "Hf" in
-                  pose proof (act_fields f x) as Hf; destruct Hf as (_ & _ & _ & _ & Hf & _);
-                  let y := fresh "y" in let Ey := fresh "Ey" in
-                  remember (act f x) as y eqn:Ey; clear Ey; cbn in Hf
-              end.
-  all: cbn; repeat split; try reflexivity; try (rewrite Hf; reflexivity).
+  intros (H1 & H2 & H3) Hq. unfold run_once, setup.
+  set (inj := match o with Ok => None | FailAt f => Some f end).
+  destruct (net_setup_case params inj (prologue s)) as [Hr|Hr Hi|Hr Hi Hp|g Hr Hi Hp]; cbn [fst snd].
+  - exfalso. unfold can_generate in Hq. change (s_remaining s = Some O) in Hr. rewrite Hr in Hq. discriminate.
+  - destruct o as [|[| | | |k| |]]; try discriminate. cbn. repeat split; reflexivity.
+  - exfalso. change (h_get (s_proto s) (s_heap s) = None) in Hp. congruence.
+  - set (s1 := put_graph g (take_quota (drop_graph params (prologue s)))).
+    assert (Et : s_trace s1 = TGenerate true :: TSetUp :: s_trace s) by reflexivity.
+    assert (Eg : s_graph s1 = Some (h_next (s_heap s))) by reflexivity.
+    assert (Ea : h_get (h_next (s_heap s)) (s_heap s1) = Some g) by (unfold s1, h_get; cbn; rewrite Nat.eqb_refl; reflexivity).
+    clearbody s1.
+    destruct (dyn_setup_case i params inj s1) as [Hj|Hj|Hj1 Hj2 Hn|a g' Hj Ha Hg|a g' Hj1 Hj2 Hj3 Ha Hg]; cbn [fst snd].
+    + destruct o as [|[| | | |k| |]]; try discriminate. cbn [protocol_spec]. unfold calls_of. cbn. rewrite Et. repeat split; reflexivity.
+    + destruct o as [|[| | | |k| |]]; try discriminate. cbn [protocol_spec].
+      destruct (act_fields (u_partial u FBuild params) (log TBuild (reset_proc u i (clear_stream u i s1)))) as (_ & _ & _ & _ & At & _ & As).
+      unfold calls_of. cbn. rewrite At. cbn. rewrite Et. repeat split; reflexivity.
+    + exfalso. destruct Hn as [Hn|(a & Ha & Hn)]; [congruence|]. rewrite Eg in Ha. injection Ha as <-. congruence.
+    + destruct o as [|[| | | |k| |]]; try discriminate. cbn [protocol_spec].
+      match goal with |- context [act ?f ?x] => destruct (act_fields f x) as (_ & _ & _ & _ & At & _ & As) end.
+      unfold calls_of. cbn. rewrite At. cbn. rewrite Et. repeat split; reflexivity.
+    + set (s2 := proc_setup u i a (u_decorate u params g') (u_table u params g')
+                            (built u i (u_table u params g') (reset_proc u i (clear_stream u i s1)))).
+      assert (Et2 : s_trace s2 = TProcSetUp :: TBuild :: TReset :: TGenerate true :: TSetUp :: s_trace s)
+        by (unfold s2; cbn; rewrite Et; reflexivity).
+      clearbody s2. unfold after_started.
+      destruct (act_fields (u_body u o params) (log TStarted s2)) as (_ & _ & _ & _ & At & _ & As).
+      set (s3 := act (u_body u o params) (log TStarted s2)) in *. clearbody s3. cbn in At.
+      destruct o as [|[| | | |k| |]]; unfold inj in *; try (exfalso; congruence); cbn; unfold calls_of; cbn; rewrite At, Et2; repeat split; reflexivity.
 Qed.
 
 End Proofs.
